@@ -365,7 +365,16 @@ def build_cases(ctx, packets):
             for k in (1, 2, 16, 22, 31, 32, 33, 36):
                 m = keyshare_last_and_cut(pkt, k)
                 if m is not None:
-                    add('cloak/keyshare-cut', m, may=False)
+                    # still the genuine hello if the x25519 value itself survived the cut (other groups follow it in
+                    # chrome's key_share), or if the bytes cut off were zeros: the parser reads the promised key bytes
+                    # from the zeroed first-packet buffer behind the hello (recorded observation)
+                    p0 = keyshare_last_and_cut(pkt, 0)
+                    zeros = p0 is not None and not any(p0[len(p0) - k:])
+                    intact = False
+                    if p0 is not None:
+                        r_, sid_, ks_ = tls_sealed_layout(p0)
+                        intact = ks_ + 32 <= len(m) and m[ks_:ks_ + 32] == p0[ks_:ks_ + 32]
+                    add('cloak/keyshare-cut', m, may=bool(may and (zeros or intact)))
         # length fields specifically
         if kind == 'tls':
             for off in (3, 4, 6, 7, 8, 43, 76, 77):
